@@ -1,35 +1,21 @@
 (* Executable model of Server::run and its surroundings (src/Socket/Server.cpp, the epoll
    variant of Socket::Poll in src/Socket/Socket.cpp).  It mirrors the code decision by
-   decision, AFTER the two repairs proposed in fixes/C01 (MultiMap::find returns the first entry
-   of an equal run) and fixes/C14 (a client event carrying read and write is handled for both).
-   No proofs in this file.
+   decision, as the code is after the repairs fixes/C01 (MultiMap::find returns the first entry
+   of an equal run; committed) and fixes/C13/01 (the write readiness of a client event is handled
+   first, the read readiness of the same event afterwards).  No proofs in this file.
 
    Environment (universally quantified inputs): the clock (advanced by [AAdv] and by the [dt]
-   of an epoll item), the result of every epoll_wait (an [epitem]), the outcome of every
-   send/recv/accept/SO_ERROR query (queues in the state), what every callback does (scripts). *)
+   of an epoll item), the result of every epoll_wait (an [epitem]: any set of sockets with any
+   native bits; when the script runs out another thread calls interrupt() while the loop
+   waits), the outcome of every send/recv/accept/SO_ERROR query (queues in the state), what
+   every callback does (scripts; a callback may create and remove timers, clients, listeners,
+   establishers - also the object it is called for -, write, read, suspend, resume, interrupt,
+   let time pass).  The simulated kernel always reports the event descriptor when it is
+   readable (level-triggered epoll). *)
 From Coq Require Import ZArith List Bool.
+From ServerLoop Require Import ServerLoopSpec.
 Import ListNotations.
 Local Open Scope Z_scope.
-
-(* ---------- identities -------------------------------------------------------------- *)
-Inductive ent := Tm (i : Z) | Cl (i : Z) | Li (i : Z) | Es (i : Z).
-
-Definition ent_eqb (a b : ent) : bool :=
-  match a, b with
-  | Tm i, Tm j | Cl i, Cl j | Li i, Li j | Es i, Es j => i =? j
-  | _, _ => false
-  end.
-
-Definition ent_id (e : ent) : Z := match e with Tm i | Cl i | Li i | Es i => i end.
-
-Inductive cbkind := KAct | KRead | KWrite | KClosed | KAccepted | KConnected | KAbolished.
-
-Definition cbkind_eqb (a b : cbkind) : bool :=
-  match a, b with
-  | KAct, KAct | KRead, KRead | KWrite, KWrite | KClosed, KClosed
-  | KAccepted, KAccepted | KConnected, KConnected | KAbolished, KAbolished => true
-  | _, _ => false
-  end.
 
 (* ---------- poll flags (Socket::Poll::Flag) and native epoll bits ---------------------- *)
 Record fl := mkFl { fR : bool; fW : bool; fA : bool; fC : bool }.
@@ -88,9 +74,18 @@ Inductive action :=
 | AInterrupt
 | AAdv (d : Z).
 
+Inductive skind := SAct | SCb (k : cbkind) | SIn (k : ikind).
+Definition skind_eqb (a b : skind) : bool :=
+  match a, b with
+  | SAct, SAct => true
+  | SCb x, SCb y => cbkind_eqb x y
+  | SIn x, SIn y => ikind_eqb x y
+  | _, _ => false
+  end.
+
 (* the next invocation of callback [s_kind] of [s_ent] runs [s_acts]; for onAccepted/onConnected
    [s_new] names the new client and [s_acc] says whether a callback object is returned for it *)
-Record sentry := mkSe { s_ent : ent; s_kind : cbkind; s_new : Z; s_acc : bool; s_acts : list action }.
+Record sentry := mkSe { s_ent : ent; s_kind : skind; s_new : Z; s_acc : bool; s_acts : list action }.
 
 Inductive op :=
 | OAct (a : action)
@@ -100,29 +95,6 @@ Inductive op :=
 | ORecvq (l : list recvout)
 | OAcceptq (l : list bool)
 | OConnq (l : list Z).
-
-(* ---------- observable events (one observation line each) ------------------------------- *)
-Inductive ctlop := CAdd | CMod | CDel.
-Inductive ev :=
-| EvNow (now : Z)                         (* the loop sampled the clock *)
-| EvAct (t : Z) (due now : Z)             (* onActivated of timer t, its due time, the sampled now *)
-| EvCb (e : ent) (k : cbkind)             (* any other callback entered *)
-| EvWait (timeout : Z)                    (* epoll_wait called *)
-| EvItem (foreign : bool)                 (* what epoll_wait consumed: a scripted item / the script ran out *)
-| EvCtl (o : ctlop) (e : ent) (mask : Z)  (* epoll_ctl *)
-| EvSend (i n r : Z)                      (* ::send on client i, n bytes offered, result *)
-| EvRecv (i r : Z)
-| EvAccept (i : Z) (ok : bool)
-| EvSoErr (i err : Z)
-| EvCreated (e : ent) (t : Z)             (* creation returned (t = clock value read, for timers) *)
-| EvRemoved (e : ent)                     (* remove() returned and the object is gone *)
-| EvDeferred (e : ent)                    (* remove() of a client that has no callback object yet *)
-| EvWrote (i : Z) (ok : bool) (postponed : Z)
-| EvRead (i : Z) (ok : bool)
-| EvSkip                                  (* action not applicable (dead or duplicate id) *)
-| EvInterrupt (foreign : bool)
-| EvRunEnter
-| EvRunRet.
 
 Record client := mkCl { c_cb : bool; c_back : Z; c_susp : bool }.
 
@@ -172,25 +144,6 @@ Definition init : state :=
 
 Definition log (e : ev) (s : state) : state := set_trace (e :: trace s) s.
 
-(* ---------- small association-list helpers (no proofs) ----------------------------------- *)
-Fixpoint zmem (i : Z) (l : list Z) : bool :=
-  match l with [] => false | x :: r => (x =? i) || zmem i r end.
-Fixpoint zremove (i : Z) (l : list Z) : list Z :=
-  match l with [] => [] | x :: r => if x =? i then r else x :: zremove i r end.
-Fixpoint emem (e : ent) (l : list ent) : bool :=
-  match l with [] => false | x :: r => ent_eqb x e || emem e r end.
-
-Section Assoc.
-  Context {K V : Type} (eqb : K -> K -> bool).
-  Fixpoint alookup (k : K) (l : list (K * V)) : option V :=
-    match l with [] => None | (k', v) :: r => if eqb k' k then Some v else alookup k r end.
-  Fixpoint aremove (k : K) (l : list (K * V)) : list (K * V) :=
-    match l with [] => [] | (k', v) :: r => if eqb k' k then r else (k', v) :: aremove k r end.
-  (* HashMap::append: overwrite in place when present, else at the end *)
-  Fixpoint aset (k : K) (v : V) (l : list (K * V)) : list (K * V) :=
-    match l with [] => [(k, v)] | (k', v') :: r => if eqb k' k then (k', v) :: r else (k', v') :: aset k v r end.
-End Assoc.
-
 (* ---------- the timer queue (MultiMap<int64, TimerImpl*>) -------------------------------- *)
 (* insert: after all entries with a key <= k (equal keys keep insertion order) *)
 Fixpoint q_insert (k : Z) (v : option Z) (q : list (Z * option Z)) : list (Z * option Z) :=
@@ -211,7 +164,7 @@ Fixpoint q_scan (et : Z) (t : Z) (q : list (Z * option Z)) : list (Z * option Z)
                    else (k, v) :: q_scan et t r
   end.
 
-(* find (repaired: first entry of the equal run; end when there is none) followed by the scan *)
+(* find (first entry of the equal run; end when there is none) followed by the scan *)
 Fixpoint q_remove (et : Z) (t : Z) (q : list (Z * option Z)) : list (Z * option Z) :=
   match q with
   | [] => []
@@ -260,43 +213,42 @@ Fixpoint absorb (ready : list (ent * nbits)) (s : state) : state :=
       end
   end.
 
+(* Server::Private::interrupt *)
 Definition do_interrupt (foreign : bool) (s : state) : state :=
   let s := log (EvInterrupt foreign) s in
   if intr s then s else set_evcount (evcount s + 1) (set_intr true s).
 
-(* Socket::Poll::poll; returns the event (None = flags 0 / socket 0) and the remaining script *)
-Definition poll (timeout : Z) (items : list epitem) (s : state) : state * option (ent * fl) * list epitem :=
-  let '(s, items, early) :=
-    match selected s with
-    | _ :: _ => (s, items, false)
-    | [] =>
-        let s := log (EvWait timeout) s in
-        let '(s, ready, items') :=
-          match items with
-          | it :: rest => (set_clk (clk s + ep_dt it) (log (EvItem false) s), ep_ready it, rest)
-          | [] => (do_interrupt true (log (EvItem true) s), [], [])   (* another thread interrupts *)
-          end in
-        let s := absorb ready s in
-        let interrupted := 0 <? evcount s in
-        match selected s, interrupted with
-        | _ :: _, false => (s, items', false)
-        | _, _ => ((if interrupted then set_evcount 0 s else s), items', true)
-        end
-    end in
-  if early then (s, None, items) else
+(* ::epoll_wait as the simulated kernel answers it *)
+Definition epoll_wait (timeout : Z) (items : list epitem) (s : state) : state * list epitem :=
+  let s := log (EvWait timeout) s in
+  match items with
+  | it :: rest => (absorb (ep_ready it) (set_clk (clk s + ep_dt it) (log (EvItem false) s)), rest)
+  | [] => (do_interrupt true (log (EvItem true) s), [])       (* another thread interrupts *)
+  end.
+
+Definition pop_selected (s : state) : state * option (ent * fl) :=
   match selected s with
-  | [] => (s, None, items)
-  | (e, f) :: r => (set_selected r s, Some (e, f), items)
+  | [] => (s, None)
+  | x :: r => (set_selected r s, Some x)
+  end.
+
+(* Socket::Poll::poll; the event (None = flags 0 / socket 0) and the remaining script *)
+Definition poll (timeout : Z) (items : list epitem) (s : state) : state * option (ent * fl) * list epitem :=
+  match selected s with
+  | _ :: _ => (pop_selected s, items)
+  | [] =>
+      let '(s, items) := epoll_wait timeout items s in
+      if 0 <? evcount s then (set_evcount 0 s, None, items)
+      else (pop_selected s, items)
   end.
 
 (* ---------- actions ------------------------------------------------------------------------ *)
-Definition pop_script (e : ent) (k : cbkind) (l : list sentry) : option sentry * list sentry :=
-  (fix go (l : list sentry) : option sentry * list sentry :=
-     match l with
-     | [] => (None, [])
-     | x :: r => if ent_eqb (s_ent x) e && cbkind_eqb (s_kind x) k then (Some x, r)
-                 else let '(o, r') := go r in (o, x :: r')
-     end) l.
+Fixpoint pop_script (e : ent) (k : skind) (l : list sentry) : option sentry * list sentry :=
+  match l with
+  | [] => (None, [])
+  | x :: r => if ent_eqb (s_ent x) e && skind_eqb (s_kind x) k then (Some x, r)
+              else let '(o, r') := pop_script e k r in (o, x :: r')
+  end.
 
 Definition fresh (e : ent) (s : state) : bool := (0 <=? ent_id e) && negb (emem e (used s)).
 
@@ -310,27 +262,33 @@ Definition delete_client (i : Z) (s : state) : state :=
 
 Definition new_client (i : Z) (s : state) : state :=
   let s := set_clients (clients s ++ [(i, mkCl false 0 false)]) s in
-  let s := if 0 <=? i then set_used (Cl i :: used s) s else s in
+  let s := set_used (Cl i :: used s) s in
   poll_set (Cl i) fl_R s.
 
 Definition upd_client (i : Z) (c : client) (s : state) : state :=
   set_clients (aset Z.eqb i c (clients s)) s.
 
 Definition send_result (n : Z) (o : sendout) : Z :=
-  match o with SWould => -1 | SErr => -1 | SSent k => Z.max 0 (Z.min k n) end.
+  match o with SWould => -1 | SErr => -2 | SSent k => Z.max 0 (Z.min k n) end.
 
 Definition pop_send (n : Z) (s : state) : sendout * state :=
   match sendq s with [] => (SSent n, s) | o :: r => (o, set_sendq r s) end.
+
+Definition pop_recv (s : state) : recvout * state :=
+  match recvq s with [] => (RWould, s) | o :: r => (o, set_recvq r s) end.
+
+Definition recv_result (o : recvout) : Z :=
+  match o with RWould => -1 | RErr => -2 | REof => 0 | RGot k => Z.max 0 k end.
 
 Definition exec_action (a : action) (s : state) : state :=
   match a with
   | ATimer i iv =>
       if fresh (Tm i) s then
         let et := clk s + iv in
+        let s := log (EvCreated (Tm i) (clk s) iv) s in
         let s := set_timers (timers s ++ [(i, (et, iv))]) s in
         let s := set_used (Tm i :: used s) s in
-        let s := set_queue (q_insert et (Some i) (queue s)) s in
-        log (EvCreated (Tm i) (clk s)) s
+        set_queue (q_insert et (Some i) (queue s)) s
       else log EvSkip s
   | ARmTimer i =>
       match alookup Z.eqb i (timers s) with
@@ -342,9 +300,9 @@ Definition exec_action (a : action) (s : state) : state :=
       end
   | APair i =>
       if fresh (Cl i) s then
+        let s := log (EvCreated (Cl i) 0 0) s in
         let s := new_client i s in
-        let s := upd_client i (mkCl true 0 false) s in
-        log (EvCreated (Cl i) 0) s
+        upd_client i (mkCl true 0 false) s
       else log EvSkip s
   | ARmClient i =>
       match alookup Z.eqb i (clients s) with
@@ -355,10 +313,10 @@ Definition exec_action (a : action) (s : state) : state :=
       end
   | AListen i =>
       if fresh (Li i) s then
+        let s := log (EvCreated (Li i) 0 0) s in
         let s := set_listeners (listeners s ++ [i]) s in
         let s := set_used (Li i :: used s) s in
-        let s := poll_set (Li i) fl_A s in
-        log (EvCreated (Li i) 0) s
+        poll_set (Li i) fl_A s
       else log EvSkip s
   | ARmListener i =>
       if zmem i (listeners s) then
@@ -368,10 +326,10 @@ Definition exec_action (a : action) (s : state) : state :=
       else log EvSkip s
   | AConnect i =>
       if fresh (Es i) s then
+        let s := log (EvCreated (Es i) 0 0) s in
         let s := set_estabs (estabs s ++ [i]) s in
         let s := set_used (Es i :: used s) s in
-        let s := poll_set (Es i) fl_C s in
-        log (EvCreated (Es i) 0) s
+        poll_set (Es i) fl_C s
       else log EvSkip s
   | ARmEstab i =>
       if zmem i (estabs s) then
@@ -386,9 +344,8 @@ Definition exec_action (a : action) (s : state) : state :=
           if c_back c =? 0 then
             let '(o, s) := pop_send n s in
             let r := send_result n o in
-            let s := log (EvSend i n r) s in
-            let closed := match o with SErr => true | SWould => false | SSent _ => r =? 0 end in
-            if closed then log (EvWrote i false 0) (closing_append i s)
+            let s := log (EvSend i n r false) s in
+            if failed_io r then log (EvWrote i false 0) (closing_append i s)
             else
               let sent := Z.max 0 r in
               if n <=? sent then log (EvWrote i true 0) s
@@ -404,14 +361,11 @@ Definition exec_action (a : action) (s : state) : state :=
   | ARead i =>
       match alookup Z.eqb i (clients s) with
       | Some c =>
-          let '(o, s) := match recvq s with [] => (RWould, s) | o :: r => (o, set_recvq r s) end in
-          match o with
-          | RWould => log (EvRead i false) (log (EvRecv i (-1)) s)
-          | RErr => log (EvRead i false) (closing_append i (log (EvRecv i (-1)) s))
-          | REof => log (EvRead i false) (closing_append i (log (EvRecv i 0) s))
-          | RGot k => if k <? 1 then log (EvRead i false) (closing_append i (log (EvRecv i 0) s))
-                      else log (EvRead i true) (log (EvRecv i k) s)
-          end
+          let '(o, s) := pop_recv s in
+          let r := recv_result o in
+          let s := log (EvRecv i r) s in
+          if failed_io r then log (EvRead i false) (closing_append i s)
+          else log (EvRead i (0 <? r)) s
       | None => log EvSkip s
       end
   | ASuspend i =>
@@ -436,12 +390,14 @@ Definition exec_action (a : action) (s : state) : state :=
 
 Definition exec_actions (l : list action) (s : state) : state := fold_left (fun s a => exec_action a s) l s.
 
-(* a callback: log it, consume its script entry, run the entry's actions *)
-Definition callback (e : ent) (k : cbkind) (s : state) : state :=
-  let s := log (EvCb e k) s in
+(* the body of a callback: consume its script entry, run the entry's actions *)
+Definition run_script (e : ent) (k : skind) (s : state) : state :=
   let '(o, rest) := pop_script e k (scripts s) in
   let s := set_scripts rest s in
   match o with Some x => exec_actions (s_acts x) s | None => s end.
+
+Definition callback (e : ent) (k : cbkind) (s : state) : state :=
+  run_script e (SCb k) (log (EvCb e k (clk s)) s).
 
 (* ---------- Server::Private::run ------------------------------------------------------------- *)
 Fixpoint timer_phase (fuel : nat) (now : Z) (s : state) : state :=
@@ -458,11 +414,8 @@ Fixpoint timer_phase (fuel : nat) (now : Z) (s : state) : state :=
                 | Some (et, iv) =>
                     let s := set_timers (aset Z.eqb t (et + iv, iv) (timers s)) s in
                     let s := set_queue (q_insert (et + iv) (Some t) q') s in
-                    let s := log (EvAct t k now) s in
-                    let '(o, rest) := pop_script (Tm t) KAct (scripts s) in
-                    let s := set_scripts rest s in
-                    let s := match o with Some x => exec_actions (s_acts x) s | None => s end in
-                    timer_phase f now s
+                    let s := log (EvAct t et now) s in
+                    timer_phase f now (run_script (Tm t) SAct s)
                 | None => timer_phase f now (set_queue q' s)     (* unreachable: queued => pooled *)
                 end
             | None => timer_phase f now (set_queue (q_insert (now + 300000) None q') s)
@@ -481,23 +434,25 @@ Fixpoint closing_phase (fuel : nat) (s : state) : state :=
           let s := set_closing r s in
           match alookup Z.eqb i (clients s) with
           | Some c => if c_cb c then closing_phase f (callback (Cl i) KClosed s)
-                      else closing_phase f (delete_client i s)
+                      else closing_phase f (log (EvRemoved (Cl i)) (delete_client i s))   (* unreachable *)
           | None => closing_phase f s                           (* unreachable: closing => pooled *)
           end
       end
   end.
 
-Definition peek_new (e : ent) (k : cbkind) (s : state) : Z * bool :=
-  match fst (pop_script e k (scripts s)) with
-  | Some x => if fresh (Cl (s_new x)) s then (s_new x, s_acc x) else (-1, false)
-  | None => (-1, false)
+(* the identity and the answer the test script has for the next onAccepted / onConnected of [e] *)
+Definition peek_new (e : ent) (k : ikind) (s : state) : option (Z * bool) :=
+  match fst (pop_script e (SIn k) (scripts s)) with
+  | Some x => if fresh (Cl (s_new x)) s then Some (s_new x, s_acc x) else None
+  | None => None
   end.
 
 (* a new client is announced through onAccepted / onConnected *)
-Definition introduce (e : ent) (k : cbkind) (s : state) : state :=
-  let '(i, acc) := peek_new e k s in
+Definition introduce (e : ent) (k : ikind) (i : Z) (acc : bool) (s : state) : state :=
+  let s := log (EvCreated (Cl i) 0 0) s in
   let s := new_client i s in
-  let s := callback e k s in
+  let s := run_script e (SIn k) (log (EvIntro e k i (clk s)) s) in
+  let s := log (EvIntroRet i acc) s in
   if acc then
     match alookup Z.eqb i (clients s) with
     | Some c => upd_client i (mkCl true (c_back c) (c_susp c)) s
@@ -509,29 +464,30 @@ Definition dispatch_write (i : Z) (also_read : bool) (s : state) : state :=
   match alookup Z.eqb i (clients s) with
   | None => s
   | Some c =>
-      let '(s, back, closed, would) :=
-        if 0 <? c_back c then
-          let '(o, s) := pop_send (c_back c) s in
-          let r := send_result (c_back c) o in
-          let s := log (EvSend i (c_back c) r) s in
-          match o with
-          | SWould => (s, c_back c, false, true)
-          | SErr => (s, c_back c, true, false)
-          | SSent _ => if r =? 0 then (s, c_back c, true, false) else (s, c_back c - r, false, false)
-          end
-        else (s, 0, false, false) in
-      if closed then
-        let s := upd_client i (mkCl (c_cb c) 0 (c_susp c)) s in
-        let s := poll_remove (Cl i) s in
-        callback (Cl i) KClosed s
-      else if would then (if also_read then callback (Cl i) KRead s else s)
+      if 0 <? c_back c then
+        let '(o, s) := pop_send (c_back c) s in
+        let r := send_result (c_back c) o in
+        let s := log (EvSend i (c_back c) r true) s in
+        if failed_io r then
+          let s := upd_client i (mkCl (c_cb c) 0 (c_susp c)) s in
+          let s := poll_remove (Cl i) s in
+          callback (Cl i) KClosed s
+        else
+          let back := c_back c - Z.max 0 r in
+          let s := upd_client i (mkCl (c_cb c) back (c_susp c)) s in
+          if back =? 0 then
+            let s := poll_set (Cl i) (if c_susp c then fl_none else fl_R) s in
+            callback (Cl i) KWrite s
+          else (if also_read then callback (Cl i) KRead s else s)
       else
-        let s := upd_client i (mkCl (c_cb c) back (c_susp c)) s in
-        if back =? 0 then
-          let s := poll_set (Cl i) (if c_susp c then fl_none else fl_R) s in
-          callback (Cl i) KWrite s
-        else (if also_read then callback (Cl i) KRead s else s)
+        let s := poll_set (Cl i) (if c_susp c then fl_none else fl_R) s in
+        callback (Cl i) KWrite s
   end.
+
+Definition pop_accept (s : state) : bool * state :=
+  match acceptq s with [] => (true, s) | o :: r => (o, set_acceptq r s) end.
+Definition pop_conn (s : state) : Z * state :=
+  match connq s with [] => (0, s) | o :: r => (o, set_connq r s) end.
 
 Definition dispatch (e : ent) (f : fl) (s : state) : state :=
   match e with
@@ -541,16 +497,20 @@ Definition dispatch (e : ent) (f : fl) (s : state) : state :=
       else s
   | Li i =>
       if fA f then
-        let '(ok, s) := match acceptq s with [] => (true, s) | o :: r => (o, set_acceptq r s) end in
-        let s := log (EvAccept i ok) s in
-        if ok then introduce (Li i) KAccepted s else s
+        let '(ok, s) := pop_accept s in
+        match (if ok then peek_new (Li i) KAccepted s else None) with
+        | Some (n, acc) => introduce (Li i) KAccepted n acc (log (EvAccept i true) s)
+        | None => log (EvAccept i false) s       (* accept fails (also when the test has no identity for the client) *)
+        end
       else s
   | Es i =>
       if fC f then
         let s := poll_remove (Es i) s in
-        let '(err, s) := match connq s with [] => (0, s) | o :: r => (o, set_connq r s) end in
-        let s := log (EvSoErr i err) s in
-        if err =? 0 then introduce (Es i) KConnected s else callback (Es i) KAbolished s
+        let '(err, s) := pop_conn s in
+        match (if err =? 0 then peek_new (Es i) KConnected s else None) with
+        | Some (n, acc) => introduce (Es i) KConnected n acc (log (EvSoErr i 0) s)
+        | None => callback (Es i) KAbolished (log (EvSoErr i (if err =? 0 then 111 else err)) s)
+        end
       else s
   | Tm _ => s
   end.
